@@ -786,6 +786,13 @@ impl Ty {
                     && distinct_inner
                         .is_functionally_equivalent_to(other, self_can_lose_distinction)
             }
+            // a variant or a named struct is not a `distinct` that was declared on top of it,
+            // not even behind a pointer (see `can_fit_into`)
+            (Ty::EnumVariant { .. } | Ty::ConcreteStruct { .. }, Ty::Distinct { .. })
+                if !self_can_lose_distinction =>
+            {
+                false
+            }
             (
                 other,
                 Ty::Distinct {
